@@ -106,6 +106,16 @@ CHECKS = {
              "'undefined' and not judged, original variables are always judged. n<=8.",
         design="DESIGN.md section 4 C05",
     ),
+    "C02": dict(
+        technique="property-based testing: generated programs, snapshot after every normalization pass interpreted by the exact reference semantics and compared with the source's joint law",
+        text="Generated-input search: the program object returned by every Transformer.execute that the real normalize_program performs is deep-copied (monkey-patch from "
+             "the harness), read back into the own AST and interpreted exactly for n=0..4; its joint pmf over the source variables (finitely supported programs) or all "
+             "mixed moments up to degree 2 plus pure moments to degree 4 (continuous draws) must equal the source's at every iteration boundary, under all four "
+             "combinations of transform_categoricals x cond2arithm. Two runs with different marker values for uninitialised auxiliaries detect information carried "
+             "across iterations. The first deviating pass is named in the replay.",
+        note=TRUSTED + " lib/snapshot.py reads only field structure of Polar's objects. Not decided: Bernoulli abstraction of conditions over continuous variables (oracle gives up).",
+        design="DESIGN.md section 4 C02",
+    ),
 }
 
 PENDING = {}
